@@ -35,10 +35,10 @@ RULE = ('BFS over clean cell histories (dedup on canonical session state) x fail
         'states = distinct canonical session states; transitions = Interpreter.execute calls in judged sessions; '
         'traces = complete sessions h.f.g replayed and compared. non-trivial = distinct (state, failing variant) whose '
         'failing cell ran at least one instruction before failing (side effects to undo)')
-BOUND = {'quick': '14-cell alphabet, continuations |g|=1; clean histories |h|<=2: all 4 failure kinds at every instruction position + '
+BOUND = {'quick': '15-cell alphabet (incl. BEGIN with a big_map id), failure kinds incl. a failure inside a DIP body, continuations |g|=1; clean histories |h|<=2: all 4 failure kinds at every instruction position + '
                   '2 parse errors + natural failures; |h|=3: {FAIL, ill-typed ADD} at every position + {FAILWITH, underflow} at the '
                   'end + parse errors + natural failures; two failing cells in a row for |h|<=2',
-         'thorough': '22-cell alphabet; |h|<=2, |g|=1: all 4 failure kinds at every instruction position + parse errors + natural '
+         'thorough': '23-cell alphabet; |h|<=2, |g|=1: all 4 failure kinds at every instruction position + parse errors + natural '
                      'failures; |h|=3, |g|=1: {FAIL, ADD} at every position + {FAILWITH, underflow} at the end + parse + natural; '
                      '|h|<=1, |g|=2: FAIL at every position + parse + natural; two failing cells in a row for |h|<=2, |g|=1'}
 ASSUMPTIONS = ['michelson_to_micheline is a pure function of the cell text: the harness memoises it (PLY table construction '
@@ -60,6 +60,7 @@ CELLS_QUICK = [
     ('UPDATE', ['PUSH (option int) (Some 1)', 'PUSH int 0', 'UPDATE']),
     ('DUP', ['DUP']),
     ('BEGIN big_map', ['BEGIN Unit {}']),
+    ('BEGIN big_map id', ['BEGIN Unit 5']),   # storage given as the id of an existing big_map: registers (5, copy) in the context
     ('CDR', ['CDR']),
     ('NIL PAIR', ['NIL operation', 'PAIR']),
     ('COMMIT', ['COMMIT']),
@@ -83,6 +84,8 @@ FAIL_TEXT = {
     'FAILWITH': ['PUSH int 1', 'FAILWITH'],
     'underflow': ['DROP 99'],
     'ADD': ['PUSH string "a"', 'PUSH int 1', 'ADD'],
+    # the failure strikes inside a DIP body, i.e. while part of the stack is protected
+    'DIPFAIL': ['PUSH int 7', 'PUSH int 8', 'DIP { FAIL }'],
 }
 PARSE_ERRORS = {'parse': 'PUSH int 1 ; ) ; DROP', 'parse-eof': 'PUSH int 1 ; {'}
 NSHARDS = 32
@@ -372,10 +375,10 @@ def plan(tier):
     """Phases: clean-history bound L1, failure kinds at every position / at the end only, continuation length L2,
     one or two failing cells."""
     if tier == 'quick':
-        return [{'name': 'single', 'L1': 2, 'D0': 0, 'kinds_all': ['FAIL', 'FAILWITH', 'underflow', 'ADD'], 'kinds_end': [], 'L2': 1, 'double': False},
+        return [{'name': 'single', 'L1': 2, 'D0': 0, 'kinds_all': ['FAIL', 'FAILWITH', 'underflow', 'ADD'], 'kinds_end': ['DIPFAIL'], 'L2': 1, 'double': False},
                 {'name': 'single-3', 'L1': 3, 'D0': 3, 'kinds_all': ['FAIL', 'ADD'], 'kinds_end': ['FAILWITH', 'underflow'], 'L2': 1, 'double': False},
                 {'name': 'double', 'L1': 2, 'D0': 0, 'kinds_all': ['FAIL'], 'kinds_end': ['ADD'], 'L2': 1, 'double': True}]
-    return [{'name': 'single', 'L1': 2, 'D0': 0, 'kinds_all': ['FAIL', 'FAILWITH', 'underflow', 'ADD'], 'kinds_end': [], 'L2': 1, 'double': False},
+    return [{'name': 'single', 'L1': 2, 'D0': 0, 'kinds_all': ['FAIL', 'FAILWITH', 'underflow', 'ADD', 'DIPFAIL'], 'kinds_end': [], 'L2': 1, 'double': False},
             {'name': 'single-3', 'L1': 3, 'D0': 3, 'kinds_all': ['FAIL', 'ADD'], 'kinds_end': ['FAILWITH', 'underflow'], 'L2': 1, 'double': False},
             {'name': 'deep', 'L1': 1, 'D0': 0, 'kinds_all': ['FAIL'], 'kinds_end': [], 'L2': 2, 'double': False},
             {'name': 'double', 'L1': 2, 'D0': 0, 'kinds_all': ['FAIL'], 'kinds_end': ['ADD'], 'L2': 1, 'double': True}]
